@@ -111,6 +111,9 @@ E = [
  ("B44", "benign", [], F+"huffcode.go", "\tfor _, index := range ctx.codeList[start:end] {\n\t\tsym := indexToSym(index)", "\tfor _, index := range ctx.codeList[start:end] {\n\t\tsym := index\n\t\tif index == 513 {\n\t\t\tsym = 512\n\t\t}"),
  ("B45", "benign", [], F+"header.go", "\tstate.litLenTable = staticLitHuffCode\n\tstate.distTable = staticDistHuffCode", "\tstate.litLenTable.shortCodeLookup = staticLitHuffCode.shortCodeLookup\n\tstate.litLenTable.longCodeLookup = staticLitHuffCode.longCodeLookup\n\tstate.distTable = staticDistHuffCode"),
  ("B46", "benign", [], D+"huffmanonly.go", "\tif final && h.offset == 0 {\n\t\th.buf.writeFinalEmptyBlock()", "\tif h.offset == 0 && final {\n\t\th.buf.writeFinalEmptyBlock()"),
+ ("M11c", "mutant", ["C11"], F+"reader.go", "\tif state.input == nil && state.phase == phaseStreamEnd {\n\t\t// the final block is decoded: what is left is handed out without asking the source for more\n\t\tf.peekSize = 0\n\t} else if state.input == nil {", "\tif state.input == nil {"),
+ ("B47", "benign", [], F+"reader.go", "\tif state.input == nil && state.phase == phaseStreamEnd {\n\t\t// the final block is decoded: what is left is handed out without asking the source for more\n\t\tf.peekSize = 0\n\t} else if state.input == nil {", "\tif state.phase == phaseStreamEnd && state.input == nil {\n\t\tf.peekSize = 0\n\t}\n\tif state.phase != phaseStreamEnd && state.input == nil {"),
+ ("B48", "benign", [], F+"reader.go", "\tif state.input == nil && state.phase == phaseStreamEnd {\n\t\t// the final block is decoded: what is left is handed out without asking the source for more\n\t\tf.peekSize = 0\n\t} else if state.input == nil {", "\tatEnd := state.phase == phaseStreamEnd\n\tif state.input == nil && atEnd {\n\t\tf.peekSize = 0\n\t} else if state.input == nil {"),
 ]
 
 def sh(cmd, cwd=None):
@@ -140,6 +143,25 @@ def main():
                 cat.append({"id": i, "kind": kind, "must_fire": props, "file": f})
                 print("ok", i)
             sh("git checkout -q -- .", cwd=w)
+        # patch-based behaviour-preserving edits written by an independent sub-agent (tools/benign_src)
+        srcdir = "/verif/tools/benign_src"
+        for k, name in enumerate(sorted(x for x in os.listdir(srcdir) if x.endswith(".patch"))):
+            i = "B%d" % (100 + k + 1)
+            a = sh("git apply %s/%s" % (srcdir, name), cwd=w)
+            if a.returncode != 0:
+                print("SKIP %s (%s): does not apply: %s" % (i, name, a.stderr[-200:])); sh("git checkout -q -- . && git clean -fdq", cwd=w); continue
+            b1 = sh(env + "go build ./...", cwd=w)
+            b2 = sh(env + "go build -tags noasmtest ./...", cwd=w)
+            if b1.returncode != 0 or b2.returncode != 0:
+                print("SKIP %s: does not compile" % i)
+            else:
+                sh("git add -A -N .", cwd=w)
+                d = sh("git diff", cwd=w).stdout
+                open(os.path.join(out, i + ".patch"), "w").write(d)
+                files = sh("git diff --name-only", cwd=w).stdout.split()
+                cat.append({"id": i, "kind": "benign", "must_fire": [], "file": files[0] if files else "", "source": name})
+                print("ok", i, name)
+            sh("git reset -q && git checkout -q -- . && git clean -fdq", cwd=w)
     finally:
         sh("git -C /repo worktree remove --force %s" % w)
     json.dump(cat, open(os.path.join(out, "catalog.json"), "w"), indent=1)
